@@ -12,6 +12,7 @@ import (
 	"path/filepath"
 	"runtime"
 	"sort"
+	"strings"
 	"sync"
 	"sync/atomic"
 	"time"
@@ -317,7 +318,7 @@ func (r *Run) Violate(v Violation) {
 	r.viols = append(r.viols, v)
 	r.mu.Unlock()
 	fmt.Printf("VIOLATION property=%s replay=%s\n", r.ID, path)
-	fmt.Printf("  check=%s case=%s/%q observed=%v expected=%v %s\n", v.Check, v.Case.Kind, clip(v.Case.Input, 200), clipAny(v.Observed), clipAny(v.Expected), v.Note)
+	fmt.Printf("  check=%s case=%s/%q observed=%v expected=%v %s\n", v.Check, v.Case.Kind, clip(v.Case.Input, 200), clipAny(v.Observed), clipAny(v.Expected), strings.ReplaceAll(clip(v.Note, 300), "\n", " | "))
 }
 
 // Violations returns the number of violations so far.
@@ -329,7 +330,7 @@ func clip(s string, n int) string {
 	}
 	return s
 }
-func clipAny(v interface{}) string { return clip(fmt.Sprint(v), 300) }
+func clipAny(v interface{}) string { return strings.ReplaceAll(clip(fmt.Sprint(v), 300), "\n", " | ") }
 
 // CleanOut removes old replay files of this property.
 func (r *Run) CleanOut() {
